@@ -555,6 +555,97 @@ Example C13_hostile_config_examples :
   grpc_provider (fun l => Some (l, [])) false (-1) 0 0 4 [97; 98; 10]%N = None.
 Proof. repeat split; vm_compute; reflexivity. Qed.
 
+(* ---------- round 8 (second part): an entry the line scanner refuses (grpc/json) ----------
+   Model/AmmoHostileConfig.v (4): [refused_spec] = the specification of a run over a file whose next line the
+   scanner refuses (longer than MaxAmmoSize / 64 KiB), [grpc_run_ord] = the pass loop with the ORDER of the
+   checks behind the line loop as a parameter. *)
+
+(* on a file with a refused entry the pass loop IS the specification — for every Passes, every pass counter,
+   every start of a pass: the refused entry ends the run with an error, it is never skipped, the file is never
+   rewound over it and Passes can not turn the error into a successful end *)
+Theorem C13_grpcjson_refused_entry_run_is_spec :
+  forall unmarshal cont (limit passes : Z) k all ammo pass left,
+    grpc_run_opts unmarshal cont limit passes k all STooLong ammo pass left =
+    firstn k (refused_spec unmarshal cont limit ammo left).
+Proof. exact grpc_refused_run. Qed.
+Print Assumptions C13_grpcjson_refused_entry_run_is_spec.
+
+(* the provider as the plugin factory builds it, for every accepted option triple and every file *)
+Theorem C13_grpcjson_provider_refused_entry :
+  forall unmarshal cont (limit passes max l p m : Z) a k file,
+    opt_accept OIntMin0 limit = Some l -> opt_accept OIntMin0 passes = Some p -> opt_accept OInt max = Some m ->
+    scan_lines_opt m file = (a, STooLong) ->
+    grpc_provider unmarshal cont limit passes max k file = Some (firstn k (refused_spec unmarshal cont l 0 a)).
+Proof. exact grpc_provider_refused. Qed.
+Print Assumptions C13_grpcjson_provider_refused_entry.
+
+(* unless the limit ends the run in front of it, the refused entry is REJECTED WITH AN ERROR after exactly the
+   accepted lines were delivered in order *)
+Theorem C13_grpcjson_refused_entry_rejected :
+  forall unmarshal cont (limit : Z) left ammo,
+    (0 <= ammo)%Z ->
+    (limit = 0 \/ ammo + Z.of_nat (length left) <= limit)%Z ->
+    (cont = true \/ Forall (decodable unmarshal) left) ->
+    refused_spec unmarshal cont limit ammo left = map (deliver_of unmarshal) left ++ [PErr].
+Proof. exact refused_spec_reaches_error. Qed.
+Print Assumptions C13_grpcjson_refused_entry_rejected.
+
+(* a successful end of such a run is the limit's doing: it is set and smaller than the number of accepted lines *)
+Theorem C13_grpcjson_refused_entry_success_needs_limit :
+  forall unmarshal cont (limit : Z) left ammo,
+    (0 <= ammo)%Z -> In PDone (refused_spec unmarshal cont limit ammo left) ->
+    limit <> 0%Z /\ (limit < ammo + Z.of_nat (length left))%Z.
+Proof. exact refused_spec_done_needs_limit. Qed.
+Print Assumptions C13_grpcjson_refused_entry_success_needs_limit.
+
+(* the expectation the driver judges grpc/json runs by is the model's answer whenever it has one *)
+Theorem C13_grpcjson_refused_expected_is_model :
+  forall unmarshal cont (limit passes max : Z) k file rs,
+    grpc_refused_expected unmarshal cont limit passes max k file = Some rs ->
+    grpc_provider unmarshal cont limit passes max k file = Some rs.
+Proof. exact grpc_refused_expected_sound. Qed.
+Print Assumptions C13_grpcjson_refused_expected_is_model.
+
+(* the order of the checks behind the line loop: scanner.Err() first is the model ... *)
+Theorem C13_grpcjson_scanner_error_first_is_model :
+  forall unmarshal cont (limit passes : Z) k all e ammo pass left,
+    grpc_run_ord unmarshal cont limit true passes k all e ammo pass left =
+    grpc_run_opts unmarshal cont limit passes k all e ammo pass left.
+Proof. exact grpc_run_ord_code. Qed.
+Print Assumptions C13_grpcjson_scanner_error_first_is_model.
+
+(* ... on files the scanner reads to the end the order is invisible (well-formed files can not tell) ... *)
+Theorem C13_grpcjson_check_order_invisible_on_wellformed :
+  forall unmarshal cont (limit passes : Z) b k all ammo pass left,
+    grpc_run_ord unmarshal cont limit b passes k all SEof ammo pass left =
+    grpc_run_opts unmarshal cont limit passes k all SEof ammo pass left.
+Proof. exact grpc_run_ord_wellformed. Qed.
+Print Assumptions C13_grpcjson_check_order_invisible_on_wellformed.
+
+(* ... and with Limit / Passes looked at before the scanner the statement is refuted: passes 1, one entry, then a
+   refused one: delivered, then a successful end *)
+Theorem C13_grpcjson_scanner_error_after_bounds_refuted :
+  let u := fun l : bytes => Some (l, @nil N) in
+  grpc_run_ord u false 0 false 1 4 [[97%N]] STooLong 0 1 [[97%N]] = [PDeliver [97%N] []; PDone] /\
+  grpc_run_ord u false 0 true 1 4 [[97%N]] STooLong 0 1 [[97%N]] = [PDeliver [97%N] []; PErr].
+Proof. exact grpc_err_after_bounds_refuted. Qed.
+Print Assumptions C13_grpcjson_scanner_error_after_bounds_refuted.
+
+Example C13_grpcjson_refused_entry_examples :
+  let u := fun l : bytes => Some (l, @nil N) in
+  let file := [97; 98; 10; 97; 98; 99; 100; 101; 102; 10; 97; 98; 10]%N in   (* "ab", "abcdef", "ab" *)
+  (* maxammosize 3 refuses the second line: passes 1, 2, 0 and limit 1 all end with the error after "ab" *)
+  grpc_provider u false 0 1 3 4 file = Some [PDeliver [97; 98]%N []; PErr] /\
+  grpc_provider u false 0 2 3 4 file = Some [PDeliver [97; 98]%N []; PErr] /\
+  grpc_provider u false 0 0 3 4 file = Some [PDeliver [97; 98]%N []; PErr] /\
+  grpc_provider u false 1 1 3 4 file = Some [PDeliver [97; 98]%N []; PErr] /\
+  grpc_refused_expected u false 0 1 3 4 file = Some [PDeliver [97; 98]%N []; PErr] /\
+  (* maxammosize 7 refuses nothing: no expectation of this kind, the run ends by passes *)
+  grpc_refused_expected u false 0 1 7 4 file = None /\
+  (* two accepted lines in front of the refused one and limit 1: the limit ends the run first *)
+  grpc_provider u false 1 1 3 4 [97; 10; 98; 10; 97; 98; 99; 100; 10]%N = Some [PDeliver [97]%N []; PDone].
+Proof. repeat split; vm_compute; reflexivity. Qed.
+
 (* ---------- round 8: the top-level config file as `pandora config.yaml` reads it (cli/cli.go readConfig) ----------
    Model/AmmoCliConfig.v: a config value tree, the discard_overflow pre-pass with its two type assertions as
    partial operations ([checked] = the comma-ok form of the repaired code), the decoder a parameter. *)
